@@ -77,6 +77,22 @@ func runC10(c *fw.Case) {
 		if noState {
 			opt.StateSaveFile = ""
 		}
+		// fault: a start that fails half-way - the operator names a pre-load state file that does not exist or belongs
+		// to another index; whatever that attempt did to the cache and state files, the next start must cope with
+		if phase > 1 && !noState && c.ChanceAdded(1, 4, "c10.failedstart") {
+			bad := filepath.Join(dir, "no-such-init-state")
+			if c.Bool("failedstart.mismatch") {
+				bad = filepath.Join(dir, "other-init-state")
+				os.WriteFile(bad, make([]byte, len(idx.Chunks)/8+2+c.Draw(3, "failedstart.len")), 0644)
+			}
+			sf, err := desync.NewSparseFile(cache, idx, st, desync.SparseFileOptions{StateSaveFile: state, StateInitFile: bad, StateInitConcurrency: 1})
+			if err != nil {
+				c.Fault("start-failed-on-bad-init-state")
+			} else {
+				_ = sf // nothing was read through it; it holds no unsaved state
+				c.Probe("start with a bad init state file succeeded")
+			}
+		}
 		preload := false
 		if _, err := os.Stat(initState); err == nil && c.Chance(1, 2, "preload") {
 			opt.StateInitFile = initState
